@@ -15,7 +15,8 @@ import (
 
 func init() {
 	register(&Property{
-		ID: "C03",
+		ID:    "C03",
+		Yield: true,
 		Rule: "sessions of 50..500 numbered lines over 6 harness-only verbs plus PING, PRIVMSG, NOTICE, PONG, MODE (verbs with built-in handlers or special parsing) with 1..4 foreground and 0..2 background handlers per verb; handler durations drawn from {return, Gosched storm, 50..500us sleep, wait until the receive " +
 			"goroutine has logged the next line}; byte stream cut per byte / PRNG sizes / one segment / inside CRLF, lines of 4094..4098, 20000 and 510..514 bytes; a 001 welcome at a PRNG position; ended by drain+Close, abrupt Close, EOF or read error " +
 			"with handlers still running; GOMAXPROCS 1,2,4,16 under the race detector. Offline oracle over the ENTER/EXIT event log: open foreground invocations always belong to one line, dispatched sequence numbers strictly increase " +
